@@ -73,7 +73,7 @@ class StochHooks(Hooks):
         k = ev.get('k', {})
         # a model is a function OF its arguments: it does not rewrite them
         for k_, v_ in it.store.items():
-            if isinstance(v_, np.ndarray) and k_ not in self.held:
+            if isinstance(v_, (np.ndarray, list)) and k_ not in self.held:
                 d_ = it.dig(v_)
                 if k_ in self.inputs and self.inputs[k_] != d_ and fn in SEEDED + ('cosmic_rays',):
                     it.probe('check:arguments')
@@ -109,7 +109,13 @@ class StochHooks(Hooks):
             sig = repr((fn, [it.dig(it.resolve(x)) for x in ev.get('a', [])], {kk: v for kk, v in k.items() if kk != 'seed'}))
             d = it.dig(out.value)
             seeds = self.by_call.setdefault(sig, {})
-            sd = repr(canonical_seed(decode(k.get('seed'))))
+            sd_ = k.get('seed')
+            if isinstance(sd_, str) and sd_.startswith('@'):
+                it.probe('seed_in_a_caller_owned_list')
+                sd_ = it.resolve(sd_)
+            else:
+                sd_ = decode(sd_)
+            sd = repr(canonical_seed(sd_))
             if sd in seeds:
                 it.probe('check:repro')
                 it.fault('dup')
@@ -306,7 +312,7 @@ class StochasticScenario(Scenario):
                    'seed=None (OS entropy) is never used: the simulator always passes seeds']
     must_hit = ['seeded_after_reseed', 'psd_nonsquare', 'psd_square', 'shot_bad_signal:gaussian', 'shot_bad_signal:poisson',
                 'moments:shot_poisson', 'moments:shot_gaussian', 'moments:read', 'dark_no_fpn', 'cosmic_hit', 'layout_twin',
-                'shot_tiny_negative', 'dark_rate_at_an_edge', 'pristine_process_comparison', 'shot_frame_edited_between_calls', 'seed_beyond_32_bits', 'one_argument_twin', 'shot_zero_signal_pixels', 'read_noise_megapixel_frame', 'dark_rate_map']
+                'shot_tiny_negative', 'dark_rate_at_an_edge', 'pristine_process_comparison', 'shot_frame_edited_between_calls', 'seed_beyond_32_bits', 'one_argument_twin', 'shot_zero_signal_pixels', 'read_noise_megapixel_frame', 'dark_rate_map', 'seed_in_a_caller_owned_list']
     probe_names = must_hit + ['coldwarm_audit']
 
     # ---------------------------------------------------------------- generation
@@ -339,6 +345,11 @@ class StochasticScenario(Scenario):
         # integer-typed electron frames (read noise must still be zero-mean with the requested sigma)
         ev.append({'c': -1, 'fn': 'array', 'id': 'IMGI', 'recipe': {'kind': 'integers', 'shape': 'F', 'lo': 100, 'hi': 5000, 'seed': rng.randrange(10 ** 6),
                                                                     'dtype': rng.choice(['int32', 'int64', 'uint16'])}})
+        # high dynamic range: faint background, one pixel beyond the 32-bit range (legal: the documented limit is 9.22e18)
+        ev.append({'c': -1, 'fn': 'array', 'id': 'HDR', 'recipe': {'kind': 'set', 'x': {'kind': 'uniform', 'shape': 'F', 'lo': 0.0, 'hi': 20.0, 'seed': 7},
+                                                                   'pixels': [[1, 1, rng.choice([3e9, 2.2e9, 5e12])]]}})
+        # a seed the caller keeps in a list of its own and hands to several models
+        ev.append({'c': -1, 'fn': 'pylist', 'id': 'SEEDL', 'a': [[rng.randrange(1000), rng.randrange(1, 1000)]]})
         ev.append({'c': -1, 'fn': 'asfortran', 'id': 'IMG_F', 'a': ['@IMG']})
         ev.append({'c': -1, 'fn': 'transposed_view', 'id': 'IMG_T', 'a': ['@IMG']})
         ev.append({'c': -1, 'fn': 'asfortran', 'id': 'FLATG_F', 'a': ['@IMGG']})
@@ -417,9 +428,22 @@ class StochasticScenario(Scenario):
                 out.append({'env': 'poke', 'c': c, 'target': '@' + fr, 'pos': out[-2]['pos'], 'value': 3000.0})
                 E('shot_noise', ['@' + fr], {'method': m1, 'seed': seed()})
                 continue
+            if 0.06 <= r < 0.09:
+                # one seed object, kept by the caller in a list, handed to two or three models in a row
+                for _q in range(rng.randint(2, 3)):
+                    which = rng.choice(['read_noise', 'shot_noise', 'dark_current', 'power_spectrum'])
+                    if which == 'read_noise':
+                        E('read_noise', ['@IMG', 2.5], {'seed': '@SEEDL'})
+                    elif which == 'shot_noise':
+                        E('shot_noise', ['@IMGG'], {'method': 'gaussian', 'seed': '@SEEDL'})
+                    elif which == 'dark_current':
+                        E('dark_current', [40.5], {'shape': [4, 5], 'fpn_factor': 0.2, 'seed': '@SEEDL'})
+                    else:
+                        E('power_spectrum', ['@MQ'], {'pixelscale': 1e-3, 'rms': 5e-8, 'half_power_freq': 8.0, 'exp': 3.0, 'seed': '@SEEDL'})
+                continue
             if r < 0.3:
                 method = rng.choice(['poisson', 'gaussian'])
-                img = rng.choice(['FLAT', 'IMG', 'IMGL', 'FLATG', 'NEG', 'HUGE', 'HUGE2', 'IMG_F', 'IMG_T', 'NEGT', 'NEGALL', 'ZER']) if method == 'poisson' else \
+                img = rng.choice(['FLAT', 'IMG', 'IMGL', 'FLATG', 'NEG', 'HUGE', 'HUGE2', 'IMG_F', 'IMG_T', 'NEGT', 'NEGALL', 'ZER', 'HDR', 'HDR']) if method == 'poisson' else \
                     rng.choice(['FLATG', 'IMG', 'FLATG', 'NEG', 'HUGE', 'IMGL', 'HUGE2', 'IMGG', 'FLATG_F', 'IMG_F', 'IMG_T', 'NEGT', 'NEGT', 'NEGALL', 'ZER', 'ZER'])
                 E('shot_noise', ['@' + img], {'method': method, 'seed': seed()},
                   t={'distinct_expected': img in ('IMG', 'IMG_F', 'IMG_T')})
